@@ -196,6 +196,13 @@ def run(ctx):
                     ctx.count("cost_law_pos_not_met_nongeneric_geometry")
                 else:
                     ctx.count("cost_law_pos_monitored_ok")
+                # the hypothesis of heur_periodic_span / path_shortest_periodic_span, monitored: no two nodes more than a cell and a half apart in a coordinate
+                if mname == "periodic" and n:
+                    pts_ = np.array([pos(i) for i in range(n)], dtype=float)
+                    span = float((pts_.max(axis=0) - pts_.min(axis=0)).max())
+                    ctx.count("periodic_span_hypothesis_met" if span <= 1.5 else "periodic_span_hypothesis_not_met_nodes_more_than_1.5_apart")
+                    if kind == "plaquette" and (pts_.min() < 0 or pts_.max() >= 1):
+                        ctx.count("plaquette_lattices_with_a_centre_outside_the_unit_square")
                 if kind == "plaquette" and not provider_ok:
                     ctx.corr_break(f"{name}: graph_utils.adjacent_plaquettes raises or differs from the edge table; paths are judged against the edge table", dict(case=name, lattice=zoo.lat_to_json(l)))
                     continue
